@@ -1,8 +1,9 @@
 #!/usr/bin/env python3
-"""keep_seed.py <PROP> <VARIANT> <detected_by> <detection note>: file a confirmed seeded defect under /verif/seeded/<PROP>-<VARIANT>/"""
+"""keep_seed.py <PROP> <VARIANT> <detected_by> <detection note> [<src dir under /tmp/seed/out>]: file a confirmed seeded defect under
+/verif/seeded/<PROP>-<VARIANT>/ (round-2 seeds: keep_seed.py C03 C C03 "..." C03r2/A)"""
 import json, os, shutil, sys
 prop, var, detected_by, note = sys.argv[1:5]
-src = '/tmp/seed/out/%s/%s' % (prop, var)
+src = '/tmp/seed/out/' + (sys.argv[5] if len(sys.argv) > 5 else '%s/%s' % (prop, var))
 dst = '/verif/seeded/%s-%s' % (prop, var)
 os.makedirs(dst, exist_ok=True)
 for f in ('patch.diff', 'demo.cpp', 'run.txt'):
